@@ -1559,7 +1559,7 @@ fn case_preserve_order(out: &mut Out, workers: usize) {
 // --------------------------------------------------------------------------- the real ParallelPipeline
 fn case_parallel(r: &mut Rng, out: &mut Out, cnt: i64, which: u64) {
     let (a, b, m) = (r.range(1, 50), r.range(0, 50), r.range(2, 40));
-    let workers = 1 + r.below(16) as usize;
+    let workers = if which == 8 || r.chance(1, 5) { 1 } else { 1 + r.below(16) as usize };
     let p = r.below(4);
     let chunk_size = *r.pick(&[1usize, 7, 100, 1024, 2048, 5000]);
     let chunk_size = if cnt > 5000 && chunk_size < 100 { 100 } else { chunk_size };
@@ -1576,6 +1576,8 @@ fn case_parallel(r: &mut Rng, out: &mut Out, cnt: i64, which: u64) {
         // chains with a pipeline breaker inside (finalize_chain / push_through_from_index)
         6 => vec![Op::Sort(vec![Key { col: 1, asc: r.chance(1, 2), nf: false }, Key { col: 0, asc: true, nf: false }]), filt.clone()],
         7 => vec![filt.clone(), Op::Sort(vec![Key { col: 1, asc: r.chance(1, 2), nf: false }, Key { col: 0, asc: true, nf: false }]), Op::Project(vec![0, 1])],
+        // a LIMIT inside the chain (ParallelPipeline::push_through_chain): one worker, so the result is the sequential one
+        8 => vec![Op::Limit(1 + r.below(cnt.max(1) as u64) as usize), Op::Filter(Pred::Cmp(0, 5, V::Int(0)))],
         _ => vec![Op::Limit(r.below(cnt.max(1) as u64 + 5) as usize)],
     };
     let cols: Vec<Vec<Value>> = (0..2).map(|c| rows.iter().map(|x| x[c].clone()).collect()).collect();
@@ -1626,6 +1628,21 @@ fn case_parallel(r: &mut Rng, out: &mut Out, cnt: i64, which: u64) {
         (if use_chunks { "par:chunk-source" } else if use_triples { "par:triple-source" } else { "par:vector-source" }).to_string(),
     ];
     let base = res.morsels_processed == nm && res.rows_processed == cnt as usize;
+    // one worker takes the morsels in order: the real pipeline against the model's run of that schedule, chunk by chunk
+    let exact_term = if workers == 1 && !use_chunks && !use_triples && cnt <= 2100 {
+        let ms = par::generate_morsels(cnt as usize, msize, 0);
+        Some(format!(
+            "chk_sched {} {} {} {} {} {}",
+            ops_coq(&ops),
+            coq::z(chunk_size as i64),
+            coq_hrows(&vrows),
+            coq_morsels(&ms),
+            coq::list(vec![coq::list((0..ms.len()).map(|i| coq::z(i as i64)))].into_iter()),
+            coq_chunks(&res.chunks.iter().map(rows_of).collect::<Vec<_>>())
+        ))
+    } else {
+        None
+    };
     let id = |x: &Row| if let V::Int(i) = x[0] { i } else { -1 };
     let (coq_term, good, imp): (Option<String>, bool, String) = match which {
         0 | 1 | 2 => {
@@ -1658,6 +1675,10 @@ fn case_parallel(r: &mut Rng, out: &mut Out, cnt: i64, which: u64) {
             let merged = flat(&rows_of_chunks(&par::merge_sorted_chunks(runs, &par_keys(keys), 2048).unwrap()));
             (None, base && each_sorted && merged == spec, format!("{} runs", res.chunks.len()))
         }
+        8 => {
+            // one worker: exactly the sequential result
+            (None, base && got == spec, format!("{} rows, expected {}", got.len(), spec.len()))
+        }
         _ => {
             let Op::Limit(n) = &ops[0] else { unreachable!() };
             // LIMIT is per worker: at most workers*n rows, all from the input, at least min(n, cnt)
@@ -1668,7 +1689,13 @@ fn case_parallel(r: &mut Rng, out: &mut Out, cnt: i64, which: u64) {
     out.emit(&Case {
         kind: "parallel".into(),
         input: format!("cnt={} a={} b={} m={} ops={:?} workers={} pressure={} chunk_size={} chunk_source={}", cnt, a, b, m, ops, workers, p, chunk_size, use_chunks),
-        coq: coq_term,
+        coq: match (exact_term, coq_term) {
+            (Some(e), Some(t)) => Some(format!("({}) && ({})", e, t)),
+            (Some(e), None) => Some(e),
+            (None, t) => t,
+        },
+        kid: if !good && which == 8 { Some("C17-K5".into()) } else { None },
+        kcoq: if !good && which == 8 { Some(format!("k_pipeline_inner_limit {} {}", ops_coq(&ops), coq::z(cnt))) } else { None },
         oracle: ok_or(good),
         msg: if good { String::new() } else { format!("parallel result differs from the sequential baseline ({}; morsels {} rows {})", imp, res.morsels_processed, res.rows_processed) },
         nontrivial: nm >= 2 && workers >= 2,
@@ -2239,9 +2266,9 @@ fn main() {
         sizes.extend([16385, 65537]);
     }
     for (j, &cnt) in sizes.iter().enumerate() {
-        let reps = if thorough { 16 } else { 8 };
+        let reps = if thorough { 18 } else { 9 };
         for k in 0..reps {
-            let mut which = ((j + k) % 8) as u64;
+            let mut which = ((j + k) % 9) as u64;
             // a sort hands ONE chunk with all its rows to the next operator: keep it below the u16 limit (C17-K3)
             if which == 6 && cnt > 60000 {
                 which = 7;
